@@ -12,7 +12,7 @@
    The pinned tree VIOLATES it at the sites of [LockOrder.known_sites] (each confirmed by reading the
    source, see /verif/known_findings.txt); what is proved about the tree is the statement for all paths
    that do not go through a listed site: [C20_repo] + [C20_check_sound] + [C20_no_deadlock]. *)
-From Saito Require Import Base LockOrder LockOrderProofs LockGraph.
+From Saito Require Import Base LockOrder LockOrderProofs LockSched LockSchedProofs LockGraph.
 From Coq Require Import String Relation_Operators.
 
 (* (a) the static checker is sound for the path semantics of any graph, at every call depth:
@@ -77,6 +77,37 @@ Goal True. idtac "@@C20-VIOLATIONS-BEGIN". Abort.
 Eval vm_compute in
   (explain repo_graph known_sites ++ explain_pairs repo_graph ++ explain_ungated repo_graph)%list.
 Goal True. idtac "@@C20-VIOLATIONS-END". Abort.
+
+(* ---- the converse direction: concrete deadlock schedules ----
+   (c) a schedule accepted by the validator is a set of tasks that the path semantics of the graph really
+   brings in front of the acquisitions they wait for, holding the locks of the snapshot, and the snapshot is
+   deadlocked; hence some task of it is not ordered.  The validator additionally checks guard modes (see
+   model/LockSched.v).  The search that proposes schedules is not trusted. *)
+Theorem C20_schedule_sound : forall g sc ts, valid_sched g sc = Some ts ->
+  Forall (at_acquisition g) ts /\ deadlocked rk5 ts.
+Proof. exact valid_sched_sound. Qed.
+
+Theorem C20_schedule_unordered : forall g sc ts, valid_sched g sc = Some ts -> ~ Forall (ordered_task rk5) ts.
+Proof. exact valid_sched_unordered. Qed.
+
+(* non-vacuity: the excerpt plus an ordered block-processing function has a validated two-task schedule
+   (handshake task two frames deep), found by the search as well *)
+Example C20_excerpt_schedule :
+  valid_sched excerpt2 [mkST 1 [Step; Enter 2; Step] 1; mkST 3 [Step] 1] <> None
+  /\ existsb (fun x => match snd x with Some _ => true | None => false end) (find_schedules excerpt2 (fun _ => true)) = true.
+Proof. split; [vm_compute; discriminate | vm_compute; reflexivity]. Qed.
+
+(* schedules for the violations that [check] does not accept (must be empty on the unchanged tree); bin/check
+   copies these lines into the replay file: a line with a DEADLOCK SCHEDULE is a concrete failing history of the
+   model, validated by [valid_sched] inside this very evaluation *)
+Goal True. idtac "@@C20-SCHEDULES-BEGIN". Abort.
+Eval vm_compute in (map (show_schedule repo_graph) (schedules_for repo_graph (unaccepted repo_graph))).
+Goal True. idtac "@@C20-SCHEDULES-END". Abort.
+(* informational: schedules for the listed findings (wasm runtime only: exports outside the SAITO gate are the
+   only possible partners of a gated export) *)
+Goal True. idtac "@@C20-KNOWN-SCHEDULES-BEGIN". Abort.
+Eval vm_compute in (map (show_schedule repo_graph) (find_schedules repo_graph (in_known known_sites))).
+Goal True. idtac "@@C20-KNOWN-SCHEDULES-END". Abort.
 
 Theorem C20_repo : check repo_graph not_linked known_sites = true.
 Proof. vm_compute. reflexivity. Qed.
@@ -148,6 +179,8 @@ Print Assumptions C20_check_sound_full.
 Print Assumptions C20_ordered_no_deadlock.
 Print Assumptions C20_no_deadlock.
 Print Assumptions C20_ranks_match_source.
+Print Assumptions C20_schedule_sound.
+Print Assumptions C20_schedule_unordered.
 Print Assumptions C20_repo.
 Print Assumptions C20_known_pairs_pinned.
 Print Assumptions C20_ungated_pinned.
